@@ -88,7 +88,7 @@ class Driver:
     """One gateway life (or several sharing a persistence file) under observation."""
 
     def __init__(self, version, flavour, interner, persistence_file=None, raising_cb=False, mqtt=False, no_callback=False, spelling=None,
-                 real_link=False):
+                 real_link=False, tcp=False):
         import mysensors
         import mysensors.handler
         import mysensors.task
@@ -105,6 +105,9 @@ class Driver:
         # real_link: the library's own SyncTransport / AsyncTransport (and, threaded, the real _poll_queue loop) between the
         # gateway and a fake connection that can be down
         self.real_link = bool(real_link) and not mqtt
+        # tcp: the TCP gateway classes (their own I_VERSION handler and watchdog state) with the recording transport put in
+        # place of the socket transport
+        self.tcp = bool(tcp) and not mqtt and not self.real_link
         self.wire = []
         self.linkup = True
         self.cb_log = []
@@ -236,6 +239,11 @@ class Driver:
                 drv.tr.disconnect()                 # (the in-flight hook of stop_restart)
                 return orig_disc()
             real.send, real.disconnect = send, disconnect
+        elif self.tcp:
+            from mysensors import mysensors as api
+            cls = api.TCPGateway if self.flavour == "sync" else api.AsyncTCPGateway
+            self.gw = cls("127.0.0.1", **kw)
+            self.gw.tasks.transport = self.tr
         else:
             cls = my.BaseSyncGateway if self.flavour == "sync" else my.BaseAsyncGateway
             self.gw = cls(self.tr, **kw)
@@ -679,14 +687,14 @@ class Driver:
     def trace(self, meta=None):
         return {"cfg": {"ver": self.version, "flavour": self.flavour, "raising_cb": self.raising_cb,
                         "persist": bool(self.pfile), "mqtt": self.mqtt, "no_callback": self.no_callback, "spelling": self.spelling,
-                        "real_link": self.real_link, **(meta or {})}, "ev": self.events, "ops": self.ops}
+                        "real_link": self.real_link, "tcp": self.tcp, **(meta or {})}, "ev": self.events, "ops": self.ops}
 
 
 def replay_ops(cfg, ops, persistence_file=None):
     """Re-execute a recorded history against the current tree; returns the new trace."""
     drv = Driver(cfg["ver"], cfg["flavour"], Interner(), persistence_file=persistence_file,
                  raising_cb=cfg.get("raising_cb", False), mqtt=cfg.get("mqtt", False), no_callback=cfg.get("no_callback", False), spelling=cfg.get("spelling"),
-                 real_link=cfg.get("real_link", False))
+                 real_link=cfg.get("real_link", False), tcp=cfg.get("tcp", False))
     for op in ops:
         k = op[0]
         if k == "link":
